@@ -14,27 +14,28 @@ Section MdStep.
   Theorem m_error_no_effect st o k : o_cond (snd (step st o)) = CNo k -> fst (step st o) = st.
   Proof.
     destruct o; cbn [mstep]; cbv zeta.
-    - destruct (name_eqb (norm n) INBOX); [reflexivity|].
-      destruct (lsplit lay (norm n)); [|reflexivity].
+    - destruct (create_name n) as [n'|k']; [|reflexivity].
+      destruct (lsplit lay n'); [|reflexivity].
       destruct (negb (ancestors_ok st p)); [reflexivity|].
-      destruct (amem (norm n) (x_folders st)); [reflexivity|].
+      destruct (amem n' (x_folders st)); [reflexivity|].
       destruct (negb (parent_ok lay st p)); [reflexivity|]. cbn. discriminate.
     - destruct (name_eqb (norm n) INBOX); [reflexivity|].
       destruct (lsplit lay (norm n)); [|reflexivity].
       destruct (negb (amem (norm n) (x_folders st))); [reflexivity|].
       destruct lay; [cbn; discriminate|].
       destruct (has_child_folder st p); [reflexivity|cbn; discriminate].
-    - destruct (name_eqb (norm b) INBOX); [reflexivity|].
+    - destruct (rename_dest b) as [b'|k']; [|reflexivity].
       destruct (name_eqb (norm a) INBOX); [reflexivity|].
-      destruct (starts_with (norm a ++ [DELIM]) (norm b)); [reflexivity|].
+      destruct (starts_with (norm a ++ [DELIM]) b'); [reflexivity|].
       destruct (tget (x_tree st) (norm a)); [|reflexivity].
-      destruct (tget (x_tree st) (norm b)); [reflexivity|].
+      destruct (tget (x_tree st) b'); [reflexivity|].
       destruct (lsplit lay (norm a)); [|reflexivity].
-      destruct (lsplit lay (norm b)); [|reflexivity].
+      destruct (lsplit lay b'); [|reflexivity].
       destruct (add_superiors uid0 _ _ _ _) as [f1 nx].
       destruct lay; [cbn; discriminate|].
       destruct (amem (norm a) f1); cbn; discriminate.
-    - destruct (lsplit lay (norm n)); [cbn; discriminate|reflexivity].
+    - destruct (inbox_case_bad (norm n)); [reflexivity|].
+      destruct (lsplit lay (norm n)); [cbn; discriminate|reflexivity].
     - destruct (lsplit lay (norm n)); [cbn; discriminate|reflexivity].
     - reflexivity.
     - reflexivity.
@@ -50,7 +51,8 @@ Section MdStep.
     exists k, o_cond (snd (step st o)) = CNo k /\ fst (step st o) = st.
   Proof.
     intros En o Ho.
-    destruct Ho as [<-|[<-|[<-|[]]]]; cbn [mstep]; cbv zeta; rewrite En, name_eqb_refl; cbn; eauto.
+    destruct Ho as [<-|[<-|[<-|[]]]]; cbn [mstep]; cbv zeta;
+      rewrite ?(create_name_inbox _ En), ?(rename_dest_inbox _ En), ?En, ?name_eqb_refl; cbn; eauto.
   Qed.
 
   Theorem m_inbox_resolves st : x_get lay st INBOX = inl (x_inbox st).
@@ -61,6 +63,8 @@ Section MdStep.
   Proof.
     intro Ha. destruct o; cbn [mstep]; cbv zeta;
       repeat match goal with
+             | |- context [match create_name ?n with _ => _ end] => destruct (create_name n)
+             | |- context [match rename_dest ?n with _ => _ end] => destruct (rename_dest n)
              | |- context [if ?c then _ else _] => destruct c eqn:?
              | |- context [match lsplit ?l ?n with _ => _ end] => destruct (lsplit l n)
              | |- context [match tget ?t ?n with _ => _ end] => destruct (tget t n)
@@ -156,7 +160,8 @@ Theorem m_rename_spec uid0 lay st a0 b0 :
     /\ in_closure (INBOX :: folder_names st) a /\ ~ in_closure (INBOX :: folder_names st) b.
 Proof.
   cbn [mstep]. cbv zeta.
-  destruct (name_eqb (norm b0) INBOX) eqn:Eb; [cbn; discriminate|].
+  destruct (rename_dest b0) as [b'|k] eqn:Erd; [|cbn; discriminate].
+  destruct (rename_dest_inl _ _ Erd) as [Eb0 ->]. pose proof (proj2 (name_eqb_neq _ _) Eb0) as Eb.
   destruct (name_eqb (norm a0) INBOX) eqn:Ea; [cbn; discriminate|].
   destruct (starts_with (norm a0 ++ [DELIM]) (norm b0)); [cbn; discriminate|].
   destruct (tget (x_tree st) (norm a0)) eqn:Eta; [|cbn; discriminate].
